@@ -120,6 +120,19 @@ Section Folded.
   Qed.
 End Folded.
 
+Lemma nodup_app {X} (l1 l2 : list X) : NoDup l1 -> NoDup l2 -> (forall x, In x l1 -> ~ In x l2) -> NoDup (l1 ++ l2).
+Proof.
+  induction l1 as [|y r IH]; simpl; intros H1 H2 Hd; [exact H2|]. inversion H1; subst. constructor.
+  - intros I. apply in_app_or in I. destruct I as [I|I]; [contradiction|]. exact (Hd y (or_introl eq_refl) I).
+  - apply IH; auto.
+Qed.
+Lemma sum_cnt_app es l1 l2 x : sum_cnt es (l1 ++ l2) x = sum_cnt es l1 x + sum_cnt es l2 x.
+Proof. induction l1 as [|h r IH]; simpl; [reflexivity|]. rewrite IH. lia. Qed.
+Lemma cnt_nonneg es h x : 0 <= cnt es h x.
+Proof. unfold cnt. lia. Qed.
+Lemma sum_cnt_nonneg es R x : 0 <= sum_cnt es R x.
+Proof. induction R as [|h r IH]; simpl; [lia|]. pose proof (cnt_nonneg es h x). lia. Qed.
+
 (** * the bridge *)
 Definition foldable (g : hostg) : Prop :=
   forall h, is_H_h g h = true -> nbrs g h <> [] /\ forall x, In x (nbrs g h) -> is_H_h g x = false /\ has_node g x = true.
@@ -131,13 +144,14 @@ Section Bridge.
   Hypothesis CB : closed B.
   Hypothesis D : describes A B tpl.
   (** default-mode way of writing the reaction: no implicit hydrogen change, counts not negative, every hydrogen atom
-      bonded to non-hydrogen atoms on both sides, and present in the template with all its bonds *)
+      bonded to non-hydrogen atoms on both sides *)
   Hypothesis E1 : forall n x y, label A n = Some x -> label B n = Some y -> a_hc x = a_hc y.
   Hypothesis E2 : forall n x, label A n = Some x -> 0 <= a_hc x.
   Hypothesis FA : foldable A.
   Hypothesis FB : foldable B.
-  Hypothesis E3 : forall h, is_H_h A h = true ->
-    In h (node_ids tpl) /\ forall k, adj A h k <> None \/ adj B h k <> None -> exists x, adj tpl h k = Some x.
+  (** a hydrogen atom that is an atom of the template is there with all its bonds (the others are spectators) *)
+  Hypothesis E3 : forall h, is_H_h A h = true -> In h (node_ids tpl) ->
+    forall k, adj A h k <> None \/ adj B h k <> None -> exists x, adj tpl h k = Some x.
   (** the rule: the template without its hydrogen atoms [R], counts = bonds to [R] on each side *)
   Hypothesis RH : forall h, In h R <-> In h (node_ids tpl) /\ is_H_h A h = true.
   Hypothesis RN : NoDup R.
@@ -167,32 +181,48 @@ Section Bridge.
     - destruct (label B h) as [y|] eqn:Ey; [|reflexivity]. exfalso. apply (label_none A h Ex). apply (pw_ids _ _ PW h).
       exact (label_some_in B h y Ey).
   Qed.
-  Lemma R_RA h : In h R <-> In h RA.
+  Lemma R_RA h : In h R -> In h RA.
+  Proof. intros I. apply (proj1 SA h). exact (proj2 (proj1 (RH h) I)). Qed.
+  Lemma RA_RB h : In h RA <-> In h RB.
   Proof.
-    split.
-    - intros I. apply (proj1 SA h). exact (proj2 (proj1 (RH h) I)).
-    - intros I. apply (proj1 SA h) in I. apply RH. split; [exact (proj1 (E3 h I))|exact I].
+    split; intros I.
+    - apply (proj1 SB h). rewrite isH_AB. apply (proj1 SA h). exact I.
+    - apply (proj1 SA h). rewrite <- isH_AB. apply (proj1 SB h). exact I.
   Qed.
-  Lemma R_RB h : In h R <-> In h RB.
+  Lemma mem_RB h : mem h RB = mem h RA.
+  Proof. destruct (mem h RB) eqn:E1', (mem h RA) eqn:E2'; try reflexivity.
+    - apply mem_spec in E1'. apply RA_RB in E1'. apply mem_spec in E1'. congruence.
+    - apply mem_spec in E2'. apply RA_RB in E2'. apply mem_spec in E2'. congruence.
+  Qed.
+  (** an atom of the template that is not one of its hydrogen atoms is no hydrogen atom at all *)
+  Lemma tpl_notR_notRA k : In k (node_ids tpl) -> ~ In k R -> ~ In k RA.
+  Proof. intros It NI I. apply NI. apply RH. split; [exact It|]. exact (proj1 (proj1 SA k) I). Qed.
+
+  (** the hydrogen atoms of A: those of the template, then the spectators *)
+  Definition spect (L : list N) : list N := filter (fun h => negb (mem h R)) L.
+  Lemma perm_split L : NoDup L -> (forall h, In h R -> In h L) -> Permutation L (R ++ spect L).
   Proof.
-    split.
-    - intros I. apply (proj1 SB h). rewrite isH_AB. apply (proj1 SA h). apply R_RA. exact I.
-    - intros I. apply (proj1 SB h) in I. rewrite isH_AB in I. apply R_RA. apply (proj1 SA h). exact I.
+    intros NL Hin. apply NoDup_Permutation; [exact NL| |].
+    - apply nodup_app; [exact RN|apply NoDup_filter; exact NL|]. intros x I J. apply filter_In in J. destruct J as [_ J].
+      apply negb_true_iff in J. apply mem_spec in I. congruence.
+    - intros x. rewrite in_app_iff. unfold spect. rewrite filter_In. split.
+      + intros I. destruct (mem x R) eqn:E; [left; apply mem_spec; exact E|right; split; [exact I|reflexivity]].
+      + intros [I|[I _]]; [exact (Hin x I)|exact I].
   Qed.
-  Lemma mem_RA h : mem h RA = mem h R.
-  Proof. destruct (mem h RA) eqn:E1', (mem h R) eqn:E2'; try reflexivity.
-    - apply mem_spec in E1'. apply R_RA in E1'. apply mem_spec in E1'. congruence.
-    - apply mem_spec in E2'. apply R_RA in E2'. apply mem_spec in E2'. congruence.
+  Lemma perm_RA : Permutation RA (R ++ spect RA).
+  Proof. apply perm_split; [exact (proj1 (proj2 SA))|exact R_RA]. Qed.
+  Lemma perm_RB : Permutation RB (R ++ spect RB).
+  Proof. apply perm_split; [exact (proj1 (proj2 SB))|]. intros h I. apply RA_RB. exact (R_RA h I). Qed.
+  Lemma perm_spect : Permutation (spect RA) (spect RB).
+  Proof.
+    apply NoDup_Permutation; [apply NoDup_filter; exact (proj1 (proj2 SA))|apply NoDup_filter; exact (proj1 (proj2 SB))|].
+    intros x. unfold spect. rewrite !filter_In. rewrite (RA_RB x). reflexivity.
   Qed.
-  Lemma mem_RB h : mem h RB = mem h R.
-  Proof. destruct (mem h RB) eqn:E1', (mem h R) eqn:E2'; try reflexivity.
-    - apply mem_spec in E1'. apply R_RB in E1'. apply mem_spec in E1'. congruence.
-    - apply mem_spec in E2'. apply R_RB in E2'. apply mem_spec in E2'. congruence.
+  Lemma spect_not_tpl h : In h (spect RA) -> is_H_h A h = true /\ ~ In h (node_ids tpl).
+  Proof.
+    intros I. unfold spect in I. apply filter_In in I. destruct I as [I K]. pose proof (proj1 (proj1 SA h) I) as Hh.
+    split; [exact Hh|]. intros It. apply negb_true_iff in K. assert (In h R) by (apply RH; auto). apply mem_spec in H. congruence.
   Qed.
-  Lemma perm_RA : Permutation R RA.
-  Proof. apply NoDup_Permutation; [exact RN|exact (proj1 (proj2 SA))|exact R_RA]. Qed.
-  Lemma perm_RB : Permutation R RB.
-  Proof. apply NoDup_Permutation; [exact RN|exact (proj1 (proj2 SB))|exact R_RB]. Qed.
 
   (** bonds of a template side to a hydrogen atom = bonds of the molecule to it *)
   Lemma side0_edges sn se : gedges (side0 sn se tpl) = gedges (dec_side sn se tpl).
@@ -210,7 +240,7 @@ Section Bridge.
     fold (adj (dec_side iG eG tpl) h k). rewrite (dec_adj iG eG tpl h k tpl_simpleP). fold (adj A h k).
     destruct (adj A h k) as [o|] eqn:Ea.
     - assert (NN : adj A h k <> None \/ adj B h k <> None) by (left; rewrite Ea; discriminate).
-      destruct (proj2 (E3 h Hh) k NN) as [x Ex]. rewrite Ex.
+      destruct (E3 h Hh Ih k NN) as [x Ex]. rewrite Ex.
       unfold adj in Ex. apply find_edge_in in Ex. destruct Ex as (p & q & J & Hp).
       destruct (d_edges _ _ _ D p q x J) as (_ & _ & Eg & _). rewrite (order_in_peq A p q h k Hp) in Eg.
       destruct (order_in_pos A h k o HA Ea) as [Eo Ho]. destruct (Z.ltb_spec 0 (eG x)); [reflexivity|lia].
@@ -229,7 +259,7 @@ Section Bridge.
     fold (adj (dec_side iH eH tpl) h k). rewrite (dec_adj iH eH tpl h k tpl_simpleP). fold (adj B h k).
     destruct (adj B h k) as [o|] eqn:Ea.
     - assert (NN : adj A h k <> None \/ adj B h k <> None) by (right; rewrite Ea; discriminate).
-      destruct (proj2 (E3 h Hh) k NN) as [x Ex]. rewrite Ex.
+      destruct (E3 h Hh Ih k NN) as [x Ex]. rewrite Ex.
       unfold adj in Ex. apply find_edge_in in Ex. destruct Ex as (p & q & J & Hp).
       destruct (d_edges _ _ _ D p q x J) as (_ & _ & _ & Eg). rewrite (order_in_peq B p q h k Hp) in Eg.
       destruct (order_in_pos B h k o HB Ea) as [Eo Ho]. destruct (Z.ltb_spec 0 (eH x)); [reflexivity|lia].
@@ -239,18 +269,41 @@ Section Bridge.
       unfold order_in in Eg. rewrite Ea in Eg. destruct (Z.ltb_spec 0 (eH x)); [lia|reflexivity].
   Qed.
 
-  Lemma sum_G k : sum_cnt (gedges (side0 iG eG tpl)) R k = hsum A RA k.
-  Proof. unfold hsum. rewrite <- (sum_cnt_perm (gedges A) R RA k perm_RA). apply sum_cnt_ext. intros h I. apply cnt_side_G. exact I. Qed.
-  Lemma sum_H k : sum_cnt (gedges (side0 iH eH tpl)) R k = hsum B RB k.
-  Proof. unfold hsum. rewrite <- (sum_cnt_perm (gedges B) R RB k perm_RB). apply sum_cnt_ext. intros h I. apply cnt_side_H. exact I. Qed.
+  Lemma sum_G k : sum_cnt (gedges (side0 iG eG tpl)) R k = hsum A R k.
+  Proof. unfold hsum. apply sum_cnt_ext. intros h I. apply cnt_side_G. exact I. Qed.
+  Lemma sum_H k : sum_cnt (gedges (side0 iH eH tpl)) R k = hsum B R k.
+  Proof. unfold hsum. apply sum_cnt_ext. intros h I. apply cnt_side_H. exact I. Qed.
+
+  (** a spectator hydrogen has the same bonds on both sides *)
+  Lemma spect_cnt h k : In h (spect RA) -> cnt (gedges A) h k = cnt (gedges B) h k.
+  Proof.
+    intros I. destruct (spect_not_tpl h I) as [Hh NT].
+    rewrite (cnt_simple _ h k (host_simple A HA)), (cnt_simple _ h k (host_simple B HB)).
+    fold (adj A h k). fold (adj B h k).
+    assert (E : order_in A h k = order_in B h k).
+    { destruct (Z.eq_dec (order_in A h k) (order_in B h k)) as [E|NE]; [exact E|]. exfalso.
+      destruct (d_cover_e _ _ _ D h k NE) as [x Ex]. unfold adj in Ex. apply find_edge_in in Ex. destruct Ex as (p & q & J & Hp).
+      destruct (d_edges _ _ _ D p q x J) as (Ip & Iq & _). apply NT.
+      unfold peq in Hp. apply orb_prop in Hp. destruct Hp as [Hp|Hp]; apply andb_prop in Hp; destruct Hp as [H1 H2];
+        apply N.eqb_eq in H1; apply N.eqb_eq in H2; subst; assumption. }
+    rewrite (order_in_eq_adj A B h k HA HB E). reflexivity.
+  Qed.
+  Definition hS (k : N) : Z := hsum A (spect RA) k.
+  Lemma hsum_A k : hsum A RA k = hsum A R k + hS k.
+  Proof. unfold hsum, hS, hsum. rewrite (sum_cnt_perm (gedges A) RA (R ++ spect RA) k perm_RA). apply sum_cnt_app. Qed.
+  Lemma hsum_B k : hsum B RB k = hsum B R k + hS k.
+  Proof.
+    unfold hsum, hS, hsum. rewrite (sum_cnt_perm (gedges B) RB (R ++ spect RB) k perm_RB), sum_cnt_app. f_equal.
+    rewrite <- (sum_cnt_perm (gedges B) (spect RA) (spect RB) k perm_spect). symmetry. apply sum_cnt_ext. intros h I. apply spect_cnt. exact I.
+  Qed.
+  Lemma hS_nonneg k : 0 <= hS k.
+  Proof. apply sum_cnt_nonneg. Qed.
 
   Let FAA : folded_to A RA A' := proj2 (proj2 SA).
   Let FBB : folded_to B RB B' := proj2 (proj2 SB).
 
-  Lemma notin_RA n : ~ In n R -> ~ In n RA.
-  Proof. intros H I. apply H. apply R_RA. exact I. Qed.
-  Lemma notin_RB n : ~ In n R -> ~ In n RB.
-  Proof. intros H I. apply H. apply R_RB. exact I. Qed.
+  Lemma notin_RB n : ~ In n RA -> ~ In n RB.
+  Proof. intros H I. apply H. apply RA_RB. exact I. Qed.
 
   Lemma pair_folded : pair_wf A' B'.
   Proof.
@@ -258,26 +311,24 @@ Section Bridge.
     - exact (folded_wf A A' RA FAA HA).
     - exact (folded_wf B B' RB FBB HB).
     - intros n. rewrite (folded_in_ids A A' RA FAA n), (folded_in_ids B B' RB FBB n).
-      split; intros [I NI]; (split; [apply (pw_ids _ _ PW); exact I|]); intros J; apply NI.
-      + apply R_RA. apply R_RB. exact J.
-      + apply R_RB. apply R_RA. exact J.
+      split; intros [I NI]; (split; [apply (pw_ids _ _ PW); exact I|]); intros J; apply NI; apply RA_RB; exact J.
     - intros n x' y' Ex' Ey'.
-      assert (NI : ~ In n R).
-      { intros I. rewrite (folded_label_in A A' RA FAA n (proj1 (R_RA n) I)) in Ex'. discriminate. }
-      rewrite (folded_label A RA A' n FAA (notin_RA n NI)) in Ex'. rewrite (folded_label B RB B' n FBB (notin_RB n NI)) in Ey'.
+      assert (NI : ~ In n RA).
+      { intros I. rewrite (folded_label_in A A' RA FAA n I) in Ex'. discriminate. }
+      rewrite (folded_label A RA A' n FAA NI) in Ex'. rewrite (folded_label B RB B' n FBB (notin_RB n NI)) in Ey'.
       destruct (label A n) as [x|] eqn:Ex; [|discriminate]. destruct (label B n) as [y|] eqn:Ey; [|discriminate].
       simpl in Ex', Ey'. inversion Ex'; inversion Ey'; subst. simpl. exact (pw_el _ _ PW n x y Ex Ey).
   Qed.
 
-  Lemma order_A' u v : ~ In u R -> ~ In v R -> order_in A' u v = order_in A u v.
+  Lemma order_A' u v : ~ In u RA -> ~ In v RA -> order_in A' u v = order_in A u v.
   Proof.
-    intros Hu Hv. rewrite (folded_order A A' RA FAA u v), !mem_RA.
-    destruct (mem u R) eqn:E; [apply mem_spec in E; contradiction|]. destruct (mem v R) eqn:E'; [apply mem_spec in E'; contradiction|]. reflexivity.
+    intros Hu Hv. rewrite (folded_order A A' RA FAA u v).
+    destruct (mem u RA) eqn:E; [apply mem_spec in E; contradiction|]. destruct (mem v RA) eqn:E'; [apply mem_spec in E'; contradiction|]. reflexivity.
   Qed.
-  Lemma order_B' u v : ~ In u R -> ~ In v R -> order_in B' u v = order_in B u v.
+  Lemma order_B' u v : ~ In u RA -> ~ In v RA -> order_in B' u v = order_in B u v.
   Proof.
     intros Hu Hv. rewrite (folded_order B B' RB FBB u v), !mem_RB.
-    destruct (mem u R) eqn:E; [apply mem_spec in E; contradiction|]. destruct (mem v R) eqn:E'; [apply mem_spec in E'; contradiction|]. reflexivity.
+    destruct (mem u RA) eqn:E; [apply mem_spec in E; contradiction|]. destruct (mem v RA) eqn:E'; [apply mem_spec in E'; contradiction|]. reflexivity.
   Qed.
 
   Lemma rc_edge_in u v x : In (u, v, x) (gedges rc) -> In (u, v, x) (gedges tpl) /\ ~ In u R /\ ~ In v R.
@@ -301,32 +352,33 @@ Section Bridge.
       destruct (RCa k a0 Ea0 NI) as (a' & Ea' & C1 & C2 & C3 & C4 & C5 & C6).
       rewrite (label_in rc k a RCn I) in Ea'. inversion Ea'; subst a'.
       destruct (d_nodes _ _ _ D k a0 (assoc_in k (gnodes tpl) Ea0)) as (x & y & Ex & Ey & N1 & N2 & N3 & N4 & _ & _).
+      pose proof (tpl_notR_notRA k It NI) as NA.
       exists (bumpk (hsum A RA k) x), (bumpk (hsum B RB k) y).
-      split; [rewrite (folded_label A RA A' k FAA (notin_RA k NI)), Ex; reflexivity|].
-      split; [rewrite (folded_label B RB B' k FBB (notin_RB k NI)), Ey; reflexivity|].
-      unfold node_fit, bumpk, set_hc; simpl. rewrite C1, C2, C3, C4, C5, C6, sum_G, sum_H.
-      pose proof (E2 k x Ex). pose proof (E1 k x y Ex Ey). repeat split; auto; lia.
+      split; [rewrite (folded_label A RA A' k FAA NA), Ex; reflexivity|].
+      split; [rewrite (folded_label B RB B' k FBB (notin_RB k NA)), Ey; reflexivity|].
+      unfold node_fit, bumpk, set_hc; simpl. rewrite C1, C2, C3, C4, C5, C6, sum_G, sum_H, hsum_A, hsum_B.
+      pose proof (E2 k x Ex). pose proof (E1 k x y Ex Ey). pose proof (hS_nonneg k). repeat split; auto; lia.
     - intros u v x I. destruct (rc_edge_in u v x I) as (I0 & Nu & Nv).
       destruct (d_edges _ _ _ D u v x I0) as (Iu & Iv & Eg & Eh).
       split; [apply RCi; auto|]. split; [apply RCi; auto|].
-      rewrite (order_A' u v Nu Nv), (order_B' u v Nu Nv). auto.
+      rewrite (order_A' u v (tpl_notR_notRA u Iu Nu) (tpl_notR_notRA v Iv Nv)), (order_B' u v (tpl_notR_notRA u Iu Nu) (tpl_notR_notRA v Iv Nv)). auto.
   Qed.
 
-  Lemma no_H_bond_outside n : ~ In n (node_ids tpl) -> hsum A RA n = 0 /\ hsum B RB n = 0.
+  (** an atom outside the template has no bond to a hydrogen atom of the template *)
+  Lemma no_H_bond_outside n : ~ In n (node_ids tpl) -> hsum A R n = 0 /\ hsum B R n = 0.
   Proof.
     intros NT.
-    assert (K : forall (X : hostg) RX, (forall h, In h RX -> is_H_h A h = true) ->
-              (forall h k, is_H_h A h = true -> adj X h k <> None -> exists x, adj tpl h k = Some x) -> hsum X RX n = 0).
-    { intros X RX HX HE. unfold hsum. apply sum_cnt_zero. intros h I.
+    assert (K : forall (X : hostg), (forall h k, In h R -> adj X h k <> None -> exists x, adj tpl h k = Some x) -> hsum X R n = 0).
+    { intros X HE. unfold hsum. apply sum_cnt_zero. intros h I.
       destruct (find_edge h n (gedges X)) as [o|] eqn:Ef; [|apply cnt_none; exact Ef]. exfalso.
-      destruct (HE h n (HX h I)) as [x Ex]; [unfold adj; rewrite Ef; discriminate|].
+      destruct (HE h n I) as [x Ex]; [unfold adj; rewrite Ef; discriminate|].
       unfold adj in Ex. apply find_edge_in in Ex. destruct Ex as (p & q & J & Hp).
       destruct (d_edges _ _ _ D p q x J) as (Ip & Iq & _). apply NT.
       unfold peq in Hp. apply orb_prop in Hp. destruct Hp as [Hp|Hp]; apply andb_prop in Hp; destruct Hp as [H1 H2];
         apply N.eqb_eq in H1; apply N.eqb_eq in H2; subst; assumption. }
-    split.
-    - apply K; [intros h I; exact (proj1 (proj1 SA h) I)|]. intros h k Hh Ne. exact (proj2 (E3 h Hh) k (or_introl Ne)).
-    - apply K; [intros h I; rewrite <- isH_AB; exact (proj1 (proj1 SB h) I)|]. intros h k Hh Ne. exact (proj2 (E3 h Hh) k (or_intror Ne)).
+    split; apply K; intros h k I Ne; destruct (proj1 (RH h) I) as [Ih Hh].
+    - exact (E3 h Hh Ih k (or_introl Ne)).
+    - exact (E3 h Hh Ih k (or_intror Ne)).
   Qed.
 
   Theorem rule_describes_folded : describes A' B' rc.
@@ -334,23 +386,24 @@ Section Bridge.
     constructor.
     - exact rule_fits_folded.
     - intros u v NE.
-      destruct (in_dec N.eq_dec u R) as [Iu|Nu].
-      { exfalso. apply NE. rewrite (folded_order A A' RA FAA u v), (folded_order B B' RB FBB u v), mem_RA, mem_RB.
+      destruct (in_dec N.eq_dec u RA) as [Iu|Nu].
+      { exfalso. apply NE. rewrite (folded_order A A' RA FAA u v), (folded_order B B' RB FBB u v), mem_RB.
         apply mem_spec in Iu. rewrite Iu. reflexivity. }
-      destruct (in_dec N.eq_dec v R) as [Iv|Nv].
-      { exfalso. apply NE. rewrite (folded_order A A' RA FAA u v), (folded_order B B' RB FBB u v), !mem_RA, !mem_RB.
+      destruct (in_dec N.eq_dec v RA) as [Iv|Nv].
+      { exfalso. apply NE. rewrite (folded_order A A' RA FAA u v), (folded_order B B' RB FBB u v), !mem_RB.
         apply mem_spec in Iv. rewrite Iv, !orb_true_r. reflexivity. }
       rewrite (order_A' u v Nu Nv), (order_B' u v Nu Nv) in NE.
-      destruct (d_cover_e _ _ _ D u v NE) as [x Ex]. exists x. unfold adj. rewrite RCe, (find_edge_keepe (gedges tpl) R u v Nu Nv). exact Ex.
+      destruct (d_cover_e _ _ _ D u v NE) as [x Ex]. exists x. unfold adj. rewrite RCe.
+      rewrite (find_edge_keepe (gedges tpl) R u v); [exact Ex| |]; intros J; [apply Nu|apply Nv]; apply R_RA; exact J.
     - intros n x' y' Ex' Ey' NE.
-      assert (NI : ~ In n R).
-      { intros I. rewrite (folded_label_in A A' RA FAA n (proj1 (R_RA n) I)) in Ex'. discriminate. }
-      rewrite (folded_label A RA A' n FAA (notin_RA n NI)) in Ex'. rewrite (folded_label B RB B' n FBB (notin_RB n NI)) in Ey'.
+      assert (NI : ~ In n RA).
+      { intros I. rewrite (folded_label_in A A' RA FAA n I) in Ex'. discriminate. }
+      rewrite (folded_label A RA A' n FAA NI) in Ex'. rewrite (folded_label B RB B' n FBB (notin_RB n NI)) in Ey'.
       destruct (label A n) as [x|] eqn:Ex; [|discriminate]. destruct (label B n) as [y|] eqn:Ey; [|discriminate].
       simpl in Ex', Ey'. inversion Ex'; inversion Ey'; subst x' y'.
-      apply RCi. split; [|exact NI].
+      apply RCi. split; [|intros J; apply NI; apply R_RA; exact J].
       destruct (in_dec N.eq_dec n (node_ids tpl)) as [I|NT]; [exact I|]. exfalso. apply NE.
-      destruct (no_H_bond_outside n NT) as [ZA ZB]. rewrite ZA, ZB.
+      destruct (no_H_bond_outside n NT) as [ZA ZB]. rewrite hsum_A, hsum_B, ZA, ZB.
       destruct (sel_dec x y) as [E|NE']; [|exfalso; exact (NT (d_cover_n _ _ _ D n x y Ex Ey NE'))].
       unfold sel, bumpk, set_hc in *; simpl. inversion E. congruence.
   Qed.
